@@ -362,6 +362,7 @@ pub fn run(ctx: &Ctx) -> i32 {
     });
     // E2: value machine
     machine::run_datetime_machine(&mut rep, if ctx.thorough { 3 } else { 2 }, machine::DtMenu::Arithmetic);
+    machine::run_datetime_paths(&mut rep, if ctx.thorough { 4 } else { 3 }, machine::DtMenu::Arithmetic);
     rep.finish()
 }
 
